@@ -58,6 +58,14 @@ pub fn run_ska(ctx: &Ctx, cwd: &Path, args: &[&str]) -> CmdOut {
 pub fn run_ska_env(ctx: &Ctx, cwd: &Path, args: &[&str], env: &[(&str, &str)]) -> CmdOut {
     CLI_CALLS.fetch_add(1, Ordering::Relaxed);
     let mut cmd = Command::new(&ctx.ska);
+    // the global --verbose flag must never change a result: add it to every fifth call of the
+    // subcommands whose stdout is data or nothing (not cov/lo, whose verbose mode prints progress)
+    let verbose_ok = matches!(args.first().copied(), Some("build" | "align" | "map" | "merge" | "delete" | "weed" | "distance" | "nk"));
+    // (decided by the worker's case counter and the argument list only, so that a run stays a function of the seed)
+    let salt: usize = args.iter().map(|a| a.len()).sum();
+    if verbose_ok && (ctx.counter.get() as usize + salt) % 5 == 2 {
+        cmd.arg("-v");
+    }
     cmd.args(args)
         .current_dir(cwd)
         .stdin(Stdio::null())
